@@ -148,4 +148,7 @@ def dconc(case):
     import numdifftools.extrapolation as ex
     from ndvc.concrete import dea_cases
     cnt, bad = dea_cases(ex)
-    return dict(reproduced=bool(bad), failing=bad[:3], cases=cnt, statement='Dea on concrete sequences: finite values, error floor, agreement with dea3, transients recovered')
+    from ndvc.concrete import epsilon_integer_cases
+    cnt2, bad2 = epsilon_integer_cases(ex)
+    cnt, bad = cnt + cnt2, bad + bad2
+    return dict(reproduced=bool(bad), failing=bad[:3], cases=cnt, statement='Dea on concrete sequences: finite values, error floor, agreement with dea3, transients recovered; integer-typed terms == float terms')
